@@ -60,6 +60,8 @@ def configs(tier, seed):
                 pats = [p for p in pats if set(p.values()) <= {1, 2} or (len(used) <= 2)]
             for lens in pats:
                 out.append(dict(h="cast", op="cast", key=f"cast/x={xd or '-'}/T={td or '-'}/{lens_key(lens)}", xd=xd, td=td, lens=lens))
+    for order in ("ort", "rot", "tro", "otr"):
+        out.append(dict(h="substring_names", op="subnames", key=f"substring_names/{order}", xd=order, lens=dict(o=2, r=3, t=2)))
     return out
 
 
@@ -75,6 +77,8 @@ def run(cfg, w):
     from flodym import FlodymArray
 
     lens = cfg["lens"]
+    if cfg["h"] == "substring_names":
+        return _substring_names(cfg, w)
     dims = {l: make_dim(l, n) for l, n in lens.items()}
     xd = cfg["xd"]
     X = w.arr("x", tuple(lens[l] for l in xd))
@@ -185,3 +189,43 @@ def run(cfg, w):
             w.ob_eq(f"sum_back{list(idx)}", back.values[idx], X[idx] * mult)
         return
     raise RuntimeError(h)
+
+
+def _substring_names(cfg, w):
+    """dimension names that contain one another ('Region' / 'Origin region'): names resolve exactly"""
+    from flodym import FlodymArray, Dimension, DimensionSet
+
+    D = {"o": Dimension(name="Origin region", letter="o", items=["o1", "o2"]), "r": Dimension(name="Region", letter="r", items=["r1", "r2", "r3"]),
+         "t": Dimension(name="Time", letter="t", items=["t1", "t2"])}
+    xd, lens = cfg["xd"], cfg["lens"]
+    X = w.arr("x", tuple(lens[l] for l in xd))
+    x = FlodymArray(dims=DimensionSet(dim_list=[D[l] for l in xd]), values=X.copy())
+
+    def marg(keep):
+        out = {}
+        for lab in label_tuples(keep, lens):
+            s_ = 0
+            for rest in label_tuples([l for l in xd if l not in keep], lens):
+                s_ = s_ + at(X, xd, {**lab, **rest})
+            out[tuple(lab[l] for l in keep)] = s_
+        return out
+
+    for name, letter in (("Region", "r"), ("Origin region", "o"), ("Time", "t")):
+        res = x.sum_over((name,))
+        keep = [l for l in xd if l != letter]
+        w.ob(f"sum_over[{name}]:dims", tuple(res.dims.letters) == tuple(keep), info=str(res.dims.letters))
+        if tuple(res.dims.letters) == tuple(keep):
+            for lab, v in marg(keep).items():
+                w.ob_eq(f"sum_over[{name}]{list(lab)}", res.values[lab], v)
+        res = x.sum_to((name,))
+        w.ob(f"sum_to[{name}]:dims", tuple(res.dims.letters) == (letter,))
+        if tuple(res.dims.letters) == (letter,):
+            for lab, v in marg([letter]).items():
+                w.ob_eq(f"sum_to[{name}]{list(lab)}", res.values[lab], v)
+    for bad in ("Regio", "region", "Origin", "egion", "i", "g", "Tim"):
+        for call in (lambda: x.sum_over((bad,)), lambda: x.sum_to((bad,))):
+            try:
+                call()
+                w.ob(f"unknown_name_rejected[{bad}]", False, info="accepted")
+            except Exception:
+                w.ob(f"unknown_name_rejected[{bad}]", True)
